@@ -46,6 +46,9 @@ type C10Case struct {
 	Half     bool   `json:",omitempty"`
 	Errno    int    `json:",omitempty"`
 	Forever  bool   `json:",omitempty"`
+	K2       int    `json:",omitempty"` // second fault point (0 = none; call 0 is never a second point)
+	Errno2   int    `json:",omitempty"`
+	Sig      int    `json:",omitempty"`
 }
 
 func init() {
@@ -252,7 +255,7 @@ func (e *c10Env) run(s C10Scn, c C10Case) (sysx.Result, dirState, []byte) {
 			panic(err)
 		}
 	}
-	job := sysx.Job{Argv: append([]string{e.gxz}, s.Args...), Dir: work, Mode: c.Mode, K: c.K, Half: c.Half, Errno: c.Errno, Forever: c.Forever, StdoutFile: filepath.Join(dir, "stdout")}
+	job := sysx.Job{Argv: append([]string{e.gxz}, s.Args...), Dir: work, Mode: c.Mode, K: c.K, Half: c.Half, Errno: c.Errno, Forever: c.Forever, K2: c.K2, Errno2: c.Errno2, Sig: c.Sig, StdoutFile: filepath.Join(dir, "stdout")}
 	res, err := e.pool.Run(job)
 	if err != nil {
 		panic("C10: tracer worker failed: " + err.Error())
@@ -346,6 +349,20 @@ func (e *c10Env) judge(r *core.Run, s C10Scn, c C10Case, rec []sysx.Call) {
 		}
 	}
 	unlinkFault := c.Mode == "fault" && res.Injected > 0 && c.K < len(rec) && rec[c.K].Kind() == "unlink"
+	if c.Mode == "fault" && c.K2 > 0 && c.K2 < len(rec) && rec[c.K2].Kind() == "unlink" {
+		unlinkFault = true
+	}
+	if c.K2 > 0 {
+		// after the first fault the call sequence differs from the recording: the second
+		// point may be any call; a temp file may remain if its removal was the one hit
+		unlinkFault = unlinkFault || res.Injected > 1
+	}
+	if c.Mode == "signal" && res.Signal != 0 {
+		// died from the signal's default action (handler not installed at that moment): killed
+		r.Eval(core.Hash(s.Name, "signal-killed", st.names()))
+		r.Nontrivial(core.Hash(s.Name, "signal-killed", st.names()))
+		return
+	}
 	if tmpLeft != "" && !unlinkFault {
 		r.Violate(cs, site+" → temp-left@"+phase, desc, observed, "no temporary file remains after a run that was not killed")
 		outcome = "temp-left"
@@ -354,6 +371,15 @@ func (e *c10Env) judge(r *core.Run, s C10Scn, c C10Case, rec []sysx.Call) {
 		if n != s.Input && n != s.Target && n != tmpLeft && s.initial(n) == nil {
 			r.Violate(cs, site+" → unexpected-file@"+phase, desc, observed, "only input/target names")
 		}
+	}
+	if c.Mode == "signal" && res.Exit != 0 {
+		// interrupted: invariants only (data safe: checked above; no temp file: checked above)
+		if !inputIntact && !(s.InputOK && tgtComplete) {
+			r.Violate(cs, site+" → interrupted-run-lost-data@"+phase, desc, observed, "input intact or complete target")
+		}
+		r.Eval(core.Hash(s.Name, "interrupted", res.Exit, st.names()))
+		r.Nontrivial(core.Hash(s.Name, "interrupted", res.Exit, st.names()))
+		return
 	}
 	if res.Exit == 0 {
 		switch {
@@ -516,6 +542,24 @@ func runC10(r *core.Run) {
 			for _, en := range errnos {
 				for _, fe := range []bool{false, true} {
 					js = append(js, job{s, C10Case{Scenario: s.Name, Mode: "fault", K: k, Errno: en, Forever: fe}, rec1.Calls})
+				}
+			}
+		}
+		if th {
+			for k := 0; k <= n; k++ {
+				js = append(js, job{s, C10Case{Scenario: s.Name, Mode: "signal", K: k, Sig: 2}, rec1.Calls})
+			}
+			// two independent faults (deviation bound 2): every pair k < k2 with one errno each
+			for k := 0; k < n; k++ {
+				for k2 := k + 1; k2 < n; k2++ {
+					e1, e2 := 5, 5
+					if rec1.Calls[k].Kind() == "write" {
+						e1 = 28
+					}
+					if rec1.Calls[k2].Kind() == "unlink" || rec1.Calls[k2].Kind() == "rename" {
+						e2 = 13
+					}
+					js = append(js, job{s, C10Case{Scenario: s.Name, Mode: "fault", K: k, Errno: e1, K2: k2, Errno2: e2}, rec1.Calls})
 				}
 			}
 		}
